@@ -36,7 +36,7 @@ struct C05 : public Driver {
         DocCfg dc; dc.maxNodes = (int)g.range(6, 50); dc.dtd = g.chance(1, 4); dc.ns = g.chance(3, 4); dc.ssPI = true; dc.manyNames = g.chance(1, 10); if (dc.manyNames) dc.maxNodes = 80;
         GenDoc d = genDoc(g, dc);
         // features that expose the two documented wrapper data-model deviations are kept to a small share of the runs
-        std::set<std::string> ex; if (!g.chance(1, 12)) ex.insert("ns-axis"); if (!g.chance(1, 12)) ex.insert("doctype-node"); ex.insert("genid");
+        std::set<std::string> ex; if (!g.chance(1, 12)) ex.insert("ns-axis"); if (!g.chance(1, 12)) ex.insert("doctype-node"); ex.insert("genid"); ex.insert("doe");
         auto allowed = featuresExcept(ex);
         SSCfg sc; sc.on = pickFeatures(g, allowed, 3, 10); sc.useImport = g.chance(1, 3); sc.useInclude = g.chance(1, 4); sc.docFn = g.chance(1, 3); sc.stripSpace = g.chance(1, 3);
         static const std::vector<std::string> encs = { "UTF-8", "UTF-8", "UTF-8", "ISO-8859-1", "US-ASCII", "UTF-16" }; sc.encoding = g.pick(encs); sc.cdataElems = g.chance(1, 8);
@@ -167,8 +167,8 @@ struct C05 : public Driver {
             // differs in source / stylesheet form (or the target is a tree): canonical trees must be equal
             std::string c = canonOf(o);
             if (c != refCanon) {
-                std::string d, feat = "tree"; if (!o.isTree) { feat = firstObsDiff(ref.bytes, o.bytes, &d); if (feat == "non-obs" || feat.empty()) { feat = "tree"; d.clear(); } }
-                if (d.empty()) { size_t k = 0; while (k < c.size() && k < refCanon.size() && c[k] == refCanon[k]) ++k; d = "canonical trees differ at offset " + std::to_string(k) + ": ..." + refCanon.substr(k > 40 ? k - 40 : 0, 120) + "... vs ..." + c.substr(k > 40 ? k - 40 : 0, 120) + "..."; }
+                std::string d, feat = "tree";      // located in the canonical trees (bytes may legitimately differ in attribute order)
+                { size_t k = 0; while (k < c.size() && k < refCanon.size() && c[k] == refCanon[k]) ++k; d = "canonical trees differ at offset " + std::to_string(k) + ": ..." + refCanon.substr(k > 40 ? k - 40 : 0, 120) + "... vs ..." + c.substr(k > 40 ? k - 40 : 0, 120) + "..."; }
                 if (feat == "tree") { size_t k = 0; while (k < c.size() && k < refCanon.size() && c[k] == refCanon[k]) ++k; size_t q = refCanon.rfind("^f=", k); if (q != std::string::npos) { size_t e = refCanon.find(';', q); feat = refCanon.substr(q + 3, e == std::string::npos ? 20 : e - q - 3); } }
                 // the dimension held responsible: the source form if it differs, else the stylesheet form, else the (tree) target
                 std::string which = f.str("src") != rf.str("src") ? "src:" + f.str("src") : f.str("ss") != rf.str("ss") ? "ss:" + f.str("ss") : "target:" + f.str("target");
